@@ -31,7 +31,7 @@ ASSUMPTIONS = [
 ]
 FLOORS = {
     "quick": {"eval:line_coordinates": 20000, "eval:grid_coordinates": 1500, "eval:spacing_to_size": 20000,
-              "eval:profile_coordinates": 100, "eval:shape_to_spacing": 100, "distinct_nontrivial": 5000, "class:long_line": 100, "class:long_line_50k": 15, "eval:ownership": 350, "eval:arguments_unmodified": 40000, "class:ndarray_shape_and_region": 50},
+              "eval:profile_coordinates": 100, "eval:shape_to_spacing": 100, "distinct_nontrivial": 5000, "class:long_line": 100, "class:long_line_50k": 15, "eval:ownership": 350, "eval:arguments_unmodified": 40000, "class:ndarray_shape_and_region": 50, "class:near_tie_not_at_tie": 100, "class:grid_near_tie": 50},
     "thorough": {"eval:line_coordinates": 200000, "eval:grid_coordinates": 10000, "distinct_nontrivial": 50000},
 }
 JOBS = {"quick": 1, "thorough": 16}
@@ -338,12 +338,17 @@ def run_case(run, tap, stream, index, rng):
             mode = rng.integers(0, 4)
             if mode == 0:
                 spacing = extent / rng.uniform(0.2, 1000)
-            elif mode == 1:  # near a .5 tie
+            elif mode == 1:  # at, or near (a few ulp up to 1e-5 relative, either side of), a .5 tie; k odd and even
                 k = int(rng.integers(0, 200))
                 spacing = extent / (k + 0.5)
-                spacing = np.nextafter(spacing, spacing * rng.choice([0.5, 2.0])) if rng.random() < 0.7 else spacing
-                for _ in range(int(rng.integers(0, 3))):
-                    spacing = np.nextafter(spacing, np.inf if rng.random() < 0.5 else 0.0)
+                if rng.random() < 0.5:
+                    spacing = np.nextafter(spacing, spacing * rng.choice([0.5, 2.0])) if rng.random() < 0.7 else spacing
+                    for _ in range(int(rng.integers(0, 3))):
+                        spacing = np.nextafter(spacing, np.inf if rng.random() < 0.5 else 0.0)
+                else:
+                    delta = float(rng.choice([-1, 1])) * 10 ** rng.uniform(-15, -5)
+                    spacing = extent / ((k + 0.5) * (1 + delta))
+                    run.count("class:near_tie_not_at_tie")
             elif mode == 2:  # spacing larger than the extent
                 spacing = extent * rng.uniform(1.0, 4.0)
             else:  # divides the extent exactly or almost
@@ -417,6 +422,11 @@ def run_case(run, tap, stream, index, rng):
                 w, h = region[1] - region[0], region[3] - region[2]
                 if w <= 0 or h <= 0:
                     kwargs["spacing"] = float((max(w, h) or 1.0) / rng.uniform(0.3, 25))
+                elif rng.random() < 0.25:  # both ratios close to (not at) a .5 tie
+                    ke, kn = int(rng.integers(1, 12)), int(rng.integers(1, 12))
+                    de, dn = (float(rng.choice([-1, 1])) * 10 ** rng.uniform(-14, -6) for _ in range(2))
+                    kwargs["spacing"] = (float(h / ((kn + 0.5) * (1 + dn))), float(w / ((ke + 0.5) * (1 + de))))
+                    run.count("class:grid_near_tie")
                 elif rng.random() < 0.4:
                     kwargs["spacing"] = float(min(w, h) / rng.uniform(0.3, 25))
                 else:
